@@ -272,6 +272,11 @@ def gen_c07(ctx):
             b = text.encode('utf-8')
             for chunks in cuts_of(b, 1, rng, all_single=True):
                 cases.append(dict(transport=tr, encoding='utf-8', errors='strict', ops=[('R', c) for c in chunks], logs=()))
+    # one byte per read: reads that consist of nothing but a part of a character deliver '' and must not be taken for EOF
+    for tr in TRANSPORTS:
+        for enc in ('utf-8', 'utf-16', 'shift_jis'):
+            b = ('h\u00e9\u20ac!\u65e5' if enc != 'shift_jis' else 'h\u65e5\u672c!\u30bd').encode(enc)
+            cases.append(dict(transport=tr, encoding=enc, errors='strict', ops=[('R', b[i:i + 1]) for i in range(len(b))], logs=()))
     n = 60 if ctx.quick() else 1200
     for _ in range(n):
         tr = rng.choice(TRANSPORTS)
